@@ -21,7 +21,7 @@ def bm3_energy(v, v0, b0, bp, e0):
 
 
 def make_dataset(rng, nv=6, nq=2, na=2, lattice=True, keys=None, v0=None, spectrum="powerlaw",
-                 nm=1, positive_definite=True):
+                 nm=1, positive_definite=True, grun=(0.4, 2.2)):
     """returns dict(qha=<QHAInputData-like dict>, elast=<dict>) of plain python numbers rounded to the
     precision the file formats carry"""
     np_ = 3 * na
@@ -45,9 +45,11 @@ def make_dataset(rng, nv=6, nq=2, na=2, lattice=True, keys=None, v0=None, spectr
         row = []
         for m in range(np_):
             w0 = rng.uniform(80.0, 1100.0)
-            g = rng.uniform(0.4, 2.2)
+            g = rng.uniform(*grun)
             h = 0.0 if spectrum == "powerlaw" else rng.uniform(-1.0, 1.0)
-            row.append((w0, g, h))
+            # "wiggly": not a polynomial in ln V of any low degree (node choice of an interpolator matters)
+            a, k = (rng.uniform(0.004, 0.02), rng.uniform(15.0, 40.0)) if spectrum == "wiggly" else (0.0, 0.0)
+            row.append((w0, g, h, a, k))
         row.sort()
         modes.append(row)
     volumes = []
@@ -57,8 +59,8 @@ def make_dataset(rng, nv=6, nq=2, na=2, lattice=True, keys=None, v0=None, spectr
         for q in range(nq):
             fr = []
             for m in range(np_):
-                w0, g, h = modes[q][m]
-                w = w0 * math.exp(-g * x - 0.5 * h * x * x)
+                w0, g, h, a, k = modes[q][m]
+                w = w0 * math.exp(-g * x - 0.5 * h * x * x + a * math.sin(k * x))
                 if q == 0 and m < 3:
                     w = round(rng.uniform(-0.2, -0.01), 6)   # acoustic at Gamma: small negative, QHA treats as 0
                 fr.append(round(w, 6))
